@@ -119,6 +119,26 @@ def check_value(bib, e, sp, inplace):
                     clause = "restore" if (x["kept"] and x["reuse"]) else ("integer_rule" if v in (["D"], ["I"]) else "enclose")
                     out.append((clause, {"value": text, "string": as_string, "key": key, "opts": o, "kept": x["kept"],
                                          "observed": got, "expected": want}))
+                    continue
+                # a field with a record followed by a field added after the removal (no record): the first is restored,
+                # the second gets the default enclosing / integer rule - records do not carry over between fields
+                if x["kept"] and x["reuse"] and not as_string and v != ["I"]:
+                    xb = [y for y in e["enc"] if not y["kept"] and all(y[k] == x[k] for k in ("reuse", "encInts", "def", "num"))]
+                    if xb:
+                        key2 = "volume" if numeric else "note"
+                        try:
+                            lib = mw_remove(bib, inplace).transform(mk_lib(bib, key, text, False))
+                            lib.entries[0].set_field(bib.model.Field(key2, text))
+                            res = mw_add(bib, o, inplace).transform(lib)
+                            got1, got2 = val_of(res, key, False), res.entries[0][key2]
+                        except Exception as ex:  # noqa
+                            out.append(("enclose_raised", {"value": text, "key": [key, key2], "opts": o, "exc": f"{type(ex).__name__}: {ex}"}))
+                            continue
+                        want2 = conc(xb[0]["r"], sp)
+                        if not same(got1, want) or not same(got2, want2):
+                            out.append(("restore" if not same(got1, want) else "enclose",
+                                        {"value": text, "string": False, "key": [key, key2], "opts": o, "history": "remove, add a field, add enclosing",
+                                         "observed": [got1, got2], "expected": [want, want2]}))
     # --- histories on one block: remove, remove, add(reuse): the record is the one of the LAST removal ---
     if v != ["I"]:
         for as_string in forms:
